@@ -82,6 +82,33 @@ func c20Work(slot, frag string, n int) func() {
 		}
 	case "param-list":
 		return parse("http://h/?" + strings.Repeat(frag+"="+frag+"&", n))
+	case "path2", "query2", "host2", "userinfo2", "opaque2", "ref2":
+		// two-phase family: frag = P + "\x00" + Q, input = prefix + P*n + Q*n
+		pq := strings.SplitN(frag, "\x00", 2)
+		two := strings.Repeat(pq[0], n) + strings.Repeat(pq[1], n)
+		switch slot {
+		case "path2":
+			return parse("http://h/" + two)
+		case "query2":
+			return parse("http://h/?" + two)
+		case "host2":
+			return parse("http://" + two + "/")
+		case "userinfo2":
+			return parse("http://" + two + "@h/")
+		case "opaque2":
+			return parse("a:" + two)
+		default:
+			base, err := url.Parse("http://h/" + strings.Repeat(pq[0], n))
+			if err != nil {
+				return func() {}
+			}
+			q := strings.Repeat(pq[1], n)
+			return func() {
+				if u, err := base.Parse(q); err == nil {
+					readAll(u)
+				}
+			}
+		}
 	case "sp-ops":
 		in := "http://h/?" + strings.Repeat(frag+"="+frag+"&", n)
 		return func() {
@@ -179,7 +206,7 @@ func init() {
 	register(&fw.Check{
 		ID:    "C20",
 		Level: "exploration",
-		Rule: "the property's own operationalisation (growth ratio between n and 4n) decided exhaustively over a declared family space with deterministic counters: every fragment of Sigma^1 (and Sigma^2 in the thorough tier) over the 40-symbol class alphabet, repeated n times in each of 22 slots (scheme body, authority, username, password, opaque host, opaque path, path, query, fragment, domain labels, reference against a long base, parameter list, list operations, each of the nine setters); " +
+		Rule: "the property's own operationalisation (growth ratio between n and 4n) decided exhaustively over a declared family space with deterministic counters: every fragment of Sigma^1 (and Sigma^2 in the thorough tier) over the 40-symbol class alphabet, repeated n times in each of 22 slots, plus two-phase families P*n + Q*n (P, Q over all concatenations of <=2 atoms of a per-slot atom menu: path, reference against a deep base, query, host, userinfo, opaque path) (scheme body, authority, username, password, opaque host, opaque path, path, query, fragment, domain labels, reference against a long base, parameter list, list operations, each of the nine setters); " +
 			"measured: Parse + every getter + SearchParams + String (and setters / list operations); counters: executed statements (AST-instrumented build) and runtime.MemStats.TotalAlloc; oracle: cost(4n)/cost(n) <= 8 for both (linear 4, n log n ~4.7, quadratic 16). non-trivial = families whose cost at 4n is at least twice the cost at n (the repeated text is actually processed)",
 		Assume:  []string{"asymptotic claims are outside any bounded method: decided is the growth between the two largest sizes of the tier", "cost inside callee libraries that neither allocates nor executes instrumented statements is invisible"},
 		Trusted: []string{"verif/instr statement counter", "runtime.MemStats"},
@@ -206,6 +233,52 @@ func init() {
 				}
 			})
 			frags = append(frags, "/a", "/.", "/..", "%41", "a&", "a=", "://", "@:", "..", "%2e/", "a.", "xn--9ca.", "1.", "[::1]", " ", "é/", "/%2E%2e", "&&", "==", "a b")
+			// two-phase families P*n + Q*n (e.g. a deep path followed by alternating dot segments): atoms per slot,
+			// P and Q range over all concatenations of <= 2 atoms
+			atoms := map[string][]string{
+				"path2":     {"a/", "../", "./", "/", "%2e%2E/"},
+				"ref2":      {"a/", "../", "./", "/"},
+				"query2":    {"a=b&", "&", "=", "a", "%41", "+"},
+				"host2":     {"a.", ".", "a", "-", "1.", "%41"},
+				"userinfo2": {"a", ":", "@", "%41"},
+				"opaque2":   {"a", "/", " ", "%41", "../"},
+			}
+			twoSlots := []string{"path2", "ref2", "query2", "host2", "userinfo2", "opaque2"}
+			for _, slot := range twoSlots {
+				var pq []string
+				for _, a := range atoms[slot] {
+					pq = append(pq, a)
+					for _, b := range atoms[slot] {
+						pq = append(pq, a+b)
+					}
+				}
+				for _, P := range pq {
+					for _, Q := range pq {
+						if P == Q || !c.Mine() || c.Expired() {
+							continue
+						}
+						c.Eval()
+						fr := P + "\x00" + Q
+						f, a, b := c20Eval(slot, fr, n2)
+						if b.Bytes >= 2*a.Bytes || b.Stmts >= 2*a.Stmts {
+							c.Nontrivial()
+							if c.WantSample("two-phase") && len(P) > 2 && len(Q) > 2 {
+								c.Sample("two-phase", map[string]any{"slot": slot, "P": P, "Q": Q, "n": n2, "stmts_n": a.Stmts, "stmts_4n": b.Stmts, "bytes_n": a.Bytes, "bytes_4n": b.Bytes})
+							}
+						}
+						if f != nil {
+							s2, nn := slot, n2
+							g := *f
+							g.Detail = g.Detail[:strings.Index(g.Detail, ":")] + ": growth ratio above " + fmt.Sprint(c20Threshold) + " (see first report for the measured numbers)"
+							c.Count("superlinear_families", 1)
+							if c.R.Counters["superlinear_families"] <= 5 {
+								c.Note(f.Detail)
+							}
+							c.Report(&g, func() *fw.Case { return &fw.Case{Kind: "c20", S: fw.Strs(s2, fr), N: []int{nn}} })
+						}
+					}
+				}
+			}
 			for _, slot := range c20Slots {
 				for _, fr := range frags {
 					if !c.Mine() || c.Expired() {
